@@ -78,7 +78,37 @@ func execC20(c C20Case) *Failure {
 	if c.Retry {
 		copts = append(copts, mcp.WithRetry(mcp.RetryConfig{MaxRetries: 3, InitialBackoff: time.Millisecond, BackoffFactor: 2, MaxBackoff: 4 * time.Millisecond}))
 	}
+	// the application keeps configuring its client (roots provider, notification handlers) while the handshake runs
+	w.PreInit = func(cn mcp.Connector) func() {
+		quit, done := make(chan struct{}), make(chan struct{})
+		go func() {
+			defer close(done)
+			type rootsSetter interface{ SetRootsProvider(mcp.RootsProvider) }
+			for i := 0; ; i++ {
+				select {
+				case <-quit:
+					return
+				default:
+				}
+				if rs, ok := cn.(rootsSetter); ok {
+					if i%2 == 0 {
+						rs.SetRootsProvider(mcp.NewDefaultRootsProvider(mcp.Root{URI: "file:///pre", Name: "pre"}))
+					} else {
+						rs.SetRootsProvider(nil)
+					}
+				}
+				cn.RegisterNotificationHandler("notifications/pre", func(n *mcp.JSONRPCNotification) error { return nil })
+				_ = cn.GetState()
+				cn.UnregisterNotificationHandler("notifications/pre")
+				if i%8 == 7 {
+					time.Sleep(50 * time.Microsecond)
+				}
+			}
+		}()
+		return func() { close(quit); <-done }
+	}
 	lc, err := w.ConnectLib(c.Real, &ChildSpec{Role: "c01"}, copts...)
+	w.PreInit = nil
 	if err != nil {
 		return Failf("C20/connect", "%v", err)
 	}
